@@ -317,11 +317,90 @@ def handleReload (docsS initS stepsS : String) (obs : List String) : Answer :=
       | _, _, _ => badCase "init"
     | _, _ => badCase "steps"
 
+
+/-! ### (b) the real reloader thread (child processes) -/
+
+def decTStep (docs : List Doc) (s : String) : Option (TStep Doc) :=
+  if s = "z" then some .longWait else
+  match splitOnChar ':' s with
+  | ["d", _] => none                       -- directories are not used with the thread
+  | _ => (decStep docs s).map .edit
+
+def renderTObs (o : TObs) : String := s!"{o.active}:{encBool o.touched}:{encBool o.alive}"
+
+def decTObs (s : String) : Option (ConfigTag × Bool × Bool) :=
+  match splitOnChar ':' s with
+  | [a, t, al] => do pure ((← decNat a), (← decBool t), (← decBool al))
+  | _ => none
+
+structure HistAnswer where
+  model : String
+  fail : Option String
+  tags : List String
+
+def handleHistory (docs : List Doc) (hist : String) (implS : String) : Option HistAnswer :=
+  match splitOnChar '>' hist with
+  | [initS, stepsS] =>
+    match splitOnChar ':' initS, mapM? (decTStep docs) (decList ',' stepsS) with
+    | [d0, m0], some steps =>
+      match (decNat d0).bind (docs[·]?), decNat m0 with
+      | some doc0, some m0 =>
+        match initState parseDoc (some m0) doc0 with
+        | none =>
+          some { model := "init-err", fail := if implS = "init-err" then none else some "init accepted an unparsable file;sig=C15/thread-init",
+                 tags := ["trivial"] }
+        | some st0 =>
+          let obs := threadRun parseDoc codeFixed st0 (.ok m0 doc0) steps
+          let model := ",".intercalate (s!"init:{st0.active}:{encBool st0.alive}" :: obs.map renderTObs)
+          let views : List (FileView Doc) := steps.filterMap (fun s => match s with | .edit fv => some fv | .longWait => none)
+          let tags := (reloadTags st0 views).filter (· ≠ "no-mtime") ++
+            (if obs.any (fun o => !o.polled) then ["slow-rate-sleeps"] else []) ++
+            (if steps.contains .longWait then ["long-wait"] else [])
+          let fail : Option String :=
+            match splitOnChar ',' implS with
+            | [] => some "empty observation;sig=C15/thread-observation"
+            | i0 :: ps =>
+              match splitOnChar ':' i0, mapM? decTObs ps with
+              | ["init", a0, al0], some ps =>
+                match decNat a0, decBool al0 with
+                | some a0, some al0 =>
+                  if ps.length ≠ steps.length then some "observation shape;sig=C15/thread-observation" else
+                  match specThread m0 doc0 a0 al0 (List.zip steps ps) with
+                  | none => none
+                  | some (i, why) => some (s!"{why} at step {i};sig=C15/thread-" ++
+                      String.ofList (why.toList.takeWhile (fun c => c.isAlpha || c == '-')))
+                | _, _ => some "unreadable observation;sig=C15/thread-observation"
+              | _, _ => some ("unreadable observation (" ++ implS ++ ");sig=C15/thread-observation")
+          some { model, fail, tags }
+      | _, _ => none
+    | _, _ => none
+  | _ => none
+
+def handleThread (docsS histsS : String) (obs : List String) : Answer :=
+  match mapM? decDoc (decList '/' docsS), obs with
+  | some docs, [implS] =>
+    let hists := splitOnChar '|' histsS
+    let impls := splitOnChar '|' implS
+    let impls := impls ++ List.replicate (hists.length - impls.length) "missing"
+    match mapM? (fun (p : String × String) => handleHistory docs p.1 p.2) (List.zip hists impls) with
+    | none => badCase "history"
+    | some as =>
+      { model := "|".intercalate (as.map (·.model)),
+        spec := match as.findSome? (·.fail) with
+          | none => "ok"
+          | some why => "FAIL:" ++ why,
+        tags :=
+          let ts := (as.flatMap (·.tags)).eraseDups
+          "thread" :: (if as.all (fun a => a.tags == ["trivial"]) then ts else ts.filter (· ≠ "trivial")) }
+  | none, _ => badCase "docs"
+  | _, _ => badCase "arity"
+
 def handle : Handler := fun cas obs =>
   match cas with
   | ["swap", cfgs, scripts, ops] => handleSwap cfgs scripts ops obs
   | ["stress", cfgs, nLog, nRec, iters, probes] => handleStress cfgs nLog nRec iters probes obs
   | ["reload", docs, init, steps] => handleReload docs init steps obs
+  | ["thread", docs, hists] => handleThread docs hists obs
   | _ => badCase "kind"
 
 end Driver.C15
